@@ -37,6 +37,8 @@ def ws2dpgu(y, lmda, nodata, p, out):
         n = np.sum(w)
 
         if n > 1:
+            # masked cells may hold nan/inf: 0 * nan would poison the solve
+            y = np.where(w > 0, y, 0.0)
             p1 = 1 - p
             z = np.zeros(m)
             znew = np.zeros(m)
